@@ -1,7 +1,9 @@
 /-
   C01 — relate() returns the true DE-9IM matrix.
-  Property theorems only. Model: GeoModel/RelateSpec.lean (executable specification of DE-9IM),
-  GeoModel/Valid.lean (domain).
+  Property theorems only. Models: GeoModel/RelateSpec.lean (executable specification of DE-9IM),
+  GeoModel/Valid.lean (domain), GeoModel/RelateImpl*.lean (executable model of the implementation:
+  the noded topology graph of geo/src/algorithm/relate; section "the model of the implementation" at
+  the end of this file).
 -/
 import GeoModel.RelateSpec
 import GeoProofs.Lemmas.RelateSpecLemmas
@@ -19,6 +21,19 @@ import GeoProofs.Lemmas.C01QPoint
 import GeoProofs.Lemmas.C01QTriangle
 import GeoProofs.Lemmas.C01QLine
 import GeoProofs.Lemmas.TRANDims
+
+import GeoProofs.Lemmas.LocateLemmas
+import GeoProofs.Lemmas.RELMMono
+import GeoProofs.Lemmas.RELMDisjoint
+import GeoProofs.Lemmas.RELMSwap
+import GeoProofs.Lemmas.RELMAtoms
+import GeoProofs.Lemmas.RELMPoint4
+import GeoProofs.Lemmas.RELMPointPoint
+import GeoProofs.Lemmas.RELMMultiPoint
+import GeoProofs.Lemmas.RELMOrder5
+import GeoProofs.Lemmas.RELMSym6
+import GeoProofs.Lemmas.RELMEnds2
+import GeoProofs.Lemmas.RELMTotal5
 import Mathlib.Tactic.NormNum
 
 namespace Geo.Proofs.C01
@@ -944,5 +959,414 @@ theorem hasDimensions_eq_source :
   · intro mn mx; simp only [boundaryDims]; exact Geo.Proofs.TRANDims.rectBoundaryDims_eq mn mx
   · intro a b c; simp only [dims]; exact Geo.Proofs.TRANDims.triDims_eq a b c
   · intro a b c; simp only [boundaryDims]; exact Geo.Proofs.TRANDims.triBoundaryDims_eq a b c
+
+/-! ## The model of the implementation (`relateImpl`, GeoModel/RelateImpl*.lean)
+
+`RI.relateImplWith ar a b : Option IM` mirrors `RelateOperation::compute_intersection_matrix`
+statement by statement (`none` = the code panics); `ar : RI.Arith` is the float arithmetic the
+algorithm depends on (crossing point of a proper intersection, coordinate subtraction).
+`RI.relateImpl? = RI.relateImplWith RI.Arith.exact`, `relateImpl a b` is its value with
+`empty_disjoint()` for a panic. Theorems stated for every `ar` hold in particular for the exact
+model and for the arithmetic of the correspondence check (`C01.impl`). -/
+
+section Impl
+open Geo.RI Geo.GG Geo.Proofs.RELM
+
+/-- [T] `set_at_least` never lowers a cell (cell-wise order by `Dimensions` rank). -/
+theorem impl_setAtLeast_monotone (m : IM) (a b : Pos) (d : Dim) : IMLe m (m.setAtLeast a b d) :=
+  le_setAtLeast m a b d
+
+/-- [T] nor do `Edge::update_intersection_matrix`, the node loop of
+`RelateOperation::update_intersection_matrix` and `compute_proper_intersection_im`. -/
+theorem impl_edgeUpdate_monotone (l : Label) (m : IM) : IMLe m (edgeUpdateIM l m) := le_edgeUpdateIM l m
+
+theorem impl_updateNodes_monotone (a b : Geom) (ns : List RNode) (m m' : IM)
+    (h : updateNodes a b ns m = some m') : IMLe m m' := le_updateNodes a b ns m m' h
+
+theorem impl_properIM_monotone (da db : Dim) (p q : Bool) (m : IM) : IMLe m (properIM da db p q m) :=
+  le_properIM da db p q m
+
+/-- [T] **matrix cells only ever increase**: the result of the graph path dominates the lower bound
+set by `compute_proper_intersection_im` (hence `empty_disjoint()`), for all operands, any arithmetic. -/
+theorem relateImpl_ge_proper (ar : Arith) (a b : Geom) {m : IM} (h : relateGraph ar a b = some m) :
+    IMLe (properIM (dims a) (dims b) (nodedGraphs ar a b).2.2.1 (nodedGraphs ar a b).2.2.2 emptyDisjoint) m :=
+  relateGraph_ge ar a b h
+
+/-- [T] **EE = 2** for every pair of operands, both paths, any arithmetic. -/
+theorem relateImplWith_ee (ar : Arith) (a b : Geom) {m : IM} (h : relateImplWith ar a b = some m) :
+    m.ee = .two := Geo.Proofs.RELM.relateImplWith_ee ar a b h
+
+/-- [T] … and for the total function (`empty_disjoint()` where the code panics). -/
+theorem relateImpl_ee (a b : Geom) : (relateImpl a b).ee = .two := by
+  unfold relateImpl relateImpl?
+  cases h : relateImplWith Arith.exact a b with
+  | none => rfl
+  | some m => exact relateImplWith_ee _ a b h
+
+/-- [T] **the result as a cell-wise maximum**: on the graph path the matrix is the fold of
+`set_at_least` over the contributions (`graphAtoms`: proper-intersection shortcut, isolated edges,
+nodes, edge-end bundles) starting from `empty_disjoint()` — the same shape as the specification's
+accumulation loop, so a cell is at least `d` iff some contribution located there has dimension ≥ `d`. -/
+theorem relateImpl_eq_fold (ar : Arith) (a b : Geom) (ga gb : RGraph) :
+    relateGraphs ar a b ga gb = (graphAtoms ar a b ga gb).map (Spec.foldFrom emptyDisjoint) :=
+  relateGraphs_eq_fold ar a b ga gb
+
+theorem relateImpl_cell (ar : Arith) (a b : Geom) (ga gb : RGraph) {m : IM} {atoms : List Atom}
+    (ha : graphAtoms ar a b ga gb = some atoms) (hm : relateGraphs ar a b ga gb = some m) (x y : Pos) (d : Dim) :
+    d.rank ≤ (m.get x y).rank ↔
+      d.rank ≤ (emptyDisjoint.get x y).rank ∨ ∃ t ∈ atoms, t.posA = x ∧ t.posB = y ∧ d.rank ≤ t.dim.rank :=
+  relateGraphs_get ar a b ga gb ha hm x y d
+
+/-- [T] **disjoint-envelope shortcut of the implementation**: operands whose bounding rectangles do
+not intersect (or one of which has none) get `compute_disjoint` of their `HasDimensions` answers. -/
+theorem relateImpl_disjoint_shortcut (ar : Arith) (a b : Geom) (h : envelopesMeet a b = false) :
+    relateImplWith ar a b = some (computeDisjoint (dims a) (boundaryDims a) (dims b) (boundaryDims b)) :=
+  relateImplWith_of_disjoint ar a b h
+
+/-- [T] **the shortcut is sound**: for such operands the model of the implementation returns the
+specification's matrix.
+Full statement (no hypotheses beyond `envelopesMeet a b = false` and validity): open for polygons with
+holes — needs "hole coordinates lie in the shell's bounding box", here the hypothesis `CoordsInBox`
+(proved for all geometries without hole coordinates: `relateImpl_disjoint_eq_spec_noInteriors`) — and
+inherits the `DimsSpec` hypotheses of `relateSpec_disjoint_eq_partial` (proved per type above). -/
+theorem relateImpl_disjoint_eq_spec_partial (ar : Arith) {a b : Geom} {ra rb : Pt × Pt}
+    (ha : boundingRect a = some ra) (hb : boundingRect b = some rb) (h : envelopesMeet a b = false)
+    (ia : CoordsInBox a) (ib : CoordsInBox b)
+    (ca : Spec.ClosedExt (parts a)) (cb : Spec.ClosedExt (parts b)) (da : Spec.DimsSpec a) (db : Spec.DimsSpec b) :
+    relateImplWith ar a b = some (relateSpec a b) :=
+  relateImplWith_disjoint_eq_spec ar ha hb h ia ib ca cb da db
+
+/-- [T] … for all operands without hole coordinates (every type but polygons with holes), empty ones
+included. -/
+theorem relateImpl_disjoint_eq_spec_noInteriors (ar : Arith) {a b : Geom} (h : envelopesMeet a b = false)
+    (hva : Geo.Proofs.C19.rectsValid a = true) (hna : Geo.Proofs.C19.noInteriors a = true)
+    (hvb : Geo.Proofs.C19.rectsValid b = true) (hnb : Geo.Proofs.C19.noInteriors b = true)
+    (ca : Spec.ClosedExt (parts a)) (cb : Spec.ClosedExt (parts b)) (da : Spec.DimsSpec a) (db : Spec.DimsSpec b) :
+    relateImplWith ar a b = some (relateSpec a b) :=
+  relateImplWith_disjoint_eq_spec_noInteriors ar h hva hna hvb hnb ca cb da db
+
+/-- a segment and a rectangle with disjoint envelopes -/
+example : relateImpl? (.line ⟨0, 0⟩ ⟨1, 1⟩) (.rect ⟨5, 0⟩ ⟨7, 2⟩) =
+    some (relateSpec (.line ⟨0, 0⟩ ⟨1, 1⟩) (.rect ⟨5, 0⟩ ⟨7, 2⟩)) := by
+  apply relateImpl_disjoint_eq_spec_noInteriors _ (by decide +kernel) rfl rfl (by decide +kernel) rfl
+  · intro q hq; simp [parts] at hq
+  · intro q hq
+    simp only [parts, List.mem_singleton] at hq
+    subst hq; rfl
+  · exact dimsSpec_line _ _
+  · exact dimsSpec_rect _ _ (by norm_num) (by norm_num)
+
+/-- [T] **label-swap invariance (C17)**: the graph a prepared geometry hands out for operand position
+`idx` — `clone_for_arg_index(idx)` of the cache built and self-noded for index 0 — is the graph
+`relate` builds and self-nodes for the plain operand. -/
+theorem preparedGraph_eq_fresh (ar : Arith) (idx : Nat) (h : idx = 0 ∨ idx = 1) (g : Geom) :
+    preparedGraph ar idx g = freshGraph ar idx g := Geo.Proofs.RELM.preparedGraph_eq_fresh ar idx h g
+
+/-- [T] **prepared path = plain path** for the model of the implementation: whichever operands are
+prepared, the matrix is the one of the plain geometries. -/
+theorem relatePrepared_eq_plain (ar : Arith) (pa pb : Bool) (a b : Geom) :
+    relatePreparedWith ar pa pb a b = relateImplWith ar a b := relatePreparedWith_eq ar pa pb a b
+
+/-- [T] self-noding neither reads nor writes labels (coordinates and labels of the edges stay as
+`GeometryGraph::new` made them). -/
+theorem selfNoding_keeps_labels (ar : Arith) (check : Bool) (es : List REdge) :
+    (selfIntersections ar check es).map toEdge = es.map toEdge := selfIntersections_toEdge ar check es
+
+/-- [T] **Point × Point**: the model of the implementation returns the specification's matrix. -/
+theorem relateImpl_point_point (ar : Arith) (p q : Pt) :
+    relateImplWith ar (.point p) (.point q) = some (relateSpec (.point p) (.point q)) :=
+  relateImplWith_point_point ar p q
+
+/-- [T] **MultiPoint × MultiPoint**: the model of the implementation returns the specification's
+matrix, for all coordinate lists (empty, repeated points included). -/
+theorem relateImpl_multiPoint_multiPoint (ar : Arith) (ps qs : List Pt) :
+    relateImplWith ar (.multiPoint ps) (.multiPoint qs) = some (relateSpec (.multiPoint ps) (.multiPoint qs)) :=
+  relateImplWith_multiPoint ar ps qs
+
+/-- [T] **Point × anything, rows Interior and Boundary** (graph path, every geometry `B`, valid or
+not): the Boundary row is `F` and the Interior row has a single `0`, in the column of the position
+`q` the node map records for `p` w.r.t. `B`. -/
+theorem relateImpl_point_rows (ar : Arith) (p : Pt) (b : Geom) {m : IM} (h : relateGraph ar (.point p) b = some m) :
+    ∃ labeled n q,
+      labeledNodes (.point p) b (freshGraph ar 0 (.point p)) (freshGraph ar 1 b) = some labeled ∧
+      findR p labeled = some n ∧ n.label.b = .lineOrPoint (some q) ∧
+      ∀ X Y, X ≠ .outside → m.get X Y = if X = .inside ∧ q = Y then .zero else .empty :=
+  point_rows ar p b h
+
+/-- [T] … and `q = B.coordinate_position(p)` (`label_isolated_node`) whenever `p` is neither a node
+of `B`'s graph nor an intersection recorded on its edges. -/
+theorem relateImpl_point_rows_isolated (ar : Arith) (p : Pt) (b : Geom) {m : IM}
+    (h : relateGraph ar (.point p) b = some m)
+    (h1 : ∀ e ∈ (freshGraph ar 1 b).edges, p ∉ e.eis.map (·.coord))
+    (h2 : p ∉ (freshGraph ar 1 b).nodes.map (·.coord)) (X Y : Pos) (hX : X ≠ .outside) :
+    m.get X Y = if X = .inside ∧ coordPos b p = Y then .zero else .empty :=
+  point_rows_isolated ar p b h h1 h2 X Y hX
+
+/-- [T] **Point × anything through `coordinate_position`**: these rows are the rows of the
+specification wherever `coordinate_position` is `locate` (C02: `coordPos_*_eq_locate*`).
+Full statement (all `p`, all valid `B`, both paths, whole matrix): open — the case of `p` a node of
+`B`'s graph needs the node labels of `B` (mod-2 rule, C17 `mod2_rule`) tied to `locate`, the Exterior row
+is the correctness of `relate` on `B`'s own components. -/
+theorem relateImpl_point_rows_eq_spec_partial (ar : Arith) (p : Pt) (b : Geom) {m : IM}
+    (h : relateGraph ar (.point p) b = some m)
+    (h1 : ∀ e ∈ (freshGraph ar 1 b).edges, p ∉ e.eis.map (·.coord))
+    (h2 : p ∉ (freshGraph ar 1 b).nodes.map (·.coord)) (hloc : coordPos b p = locate b p)
+    (X Y : Pos) (hX : X ≠ .outside) :
+    m.get X Y = (relateSpec (.point p) b).get X Y := by
+  rw [point_rows_isolated ar p b h h1 h2 X Y hX, relateSpec_point_row p b X Y hX, hloc]
+
+/-- a point in the interior of a segment, on the interior of a triangle's edge -/
+example : ∀ m, relateGraph Arith.exact (.point ⟨1, 1⟩) (.line ⟨0, 0⟩ ⟨2, 2⟩) = some m →
+    m.get .inside .inside = (relateSpec (.point ⟨1, 1⟩) (.line ⟨0, 0⟩ ⟨2, 2⟩)).get .inside .inside := by
+  intro m h
+  exact relateImpl_point_rows_eq_spec_partial _ _ _ h (by decide +kernel) (by decide +kernel)
+    (Geo.Proofs.Loc.coordPos_line_eq_locate _ _ _) _ _ (by decide)
+
+/-- [T] **the transpose law does not hold of the code as written** for all inputs: a zero-length
+`Line` (an invalid operand) makes an edge end of length zero, whose `EdgeEndKey` compares `Equal` to
+every other key, so the bundles of the star depend on which operand's edge ends are inserted first.
+Witness: a triangle and a zero-length `Line` at one of its vertices — `relate(T, L) = FF21F1FF2`,
+`relate(L, T) = 10FFFF2F2` (the real code returns the same two matrices: corpus/C01.ops). -/
+theorem relateImpl_transpose_fails_witness :
+    relateImpl? (.polygon ⟨[⟨1, 1⟩, ⟨3, 1⟩, ⟨1, 3⟩, ⟨1, 1⟩], []⟩) (.line ⟨1, 1⟩ ⟨1, 1⟩) ≠
+      (relateImpl? (.line ⟨1, 1⟩ ⟨1, 1⟩) (.polygon ⟨[⟨1, 1⟩, ⟨3, 1⟩, ⟨1, 3⟩, ⟨1, 1⟩], []⟩)).map IM.transpose := by
+  decide +kernel
+
+/-- … while it holds on the valid neighbours of the witness (the same triangle against a segment
+ending at the vertex, and against the point) -/
+example : relateImpl? (.polygon ⟨[⟨1, 1⟩, ⟨3, 1⟩, ⟨1, 3⟩, ⟨1, 1⟩], []⟩) (.line ⟨1, 1⟩ ⟨0, 0⟩) =
+    (relateImpl? (.line ⟨1, 1⟩ ⟨0, 0⟩) (.polygon ⟨[⟨1, 1⟩, ⟨3, 1⟩, ⟨1, 3⟩, ⟨1, 1⟩], []⟩)).map IM.transpose := by
+  decide +kernel
+
+example : relateImpl? (.polygon ⟨[⟨1, 1⟩, ⟨3, 1⟩, ⟨1, 3⟩, ⟨1, 1⟩], []⟩) (.point ⟨1, 1⟩) =
+    (relateImpl? (.point ⟨1, 1⟩) (.polygon ⟨[⟨1, 1⟩, ⟨3, 1⟩, ⟨1, 3⟩, ⟨1, 1⟩], []⟩)).map IM.transpose := by
+  decide +kernel
+
+/-- the model of the implementation and the specification on two overlapping squares, a line
+crossing a polygon with a hole, and two line strings sharing an end point (evaluated by the kernel) -/
+example : relateImpl? (.polygon ⟨[⟨0, 0⟩, ⟨2, 0⟩, ⟨2, 2⟩, ⟨0, 2⟩, ⟨0, 0⟩], []⟩)
+      (.polygon ⟨[⟨1, 1⟩, ⟨3, 1⟩, ⟨3, 3⟩, ⟨1, 3⟩, ⟨1, 1⟩], []⟩) =
+    some (relateSpec (.polygon ⟨[⟨0, 0⟩, ⟨2, 0⟩, ⟨2, 2⟩, ⟨0, 2⟩, ⟨0, 0⟩], []⟩)
+      (.polygon ⟨[⟨1, 1⟩, ⟨3, 1⟩, ⟨3, 3⟩, ⟨1, 3⟩, ⟨1, 1⟩], []⟩)) := by
+  decide +kernel
+
+example : relateImpl? (.lineString [⟨0, 0⟩, ⟨1, 1⟩, ⟨2, 0⟩]) (.lineString [⟨2, 0⟩, ⟨2, 2⟩]) =
+    some (relateSpec (.lineString [⟨0, 0⟩, ⟨1, 1⟩, ⟨2, 0⟩]) (.lineString [⟨2, 0⟩, ⟨2, 2⟩])) := by
+  decide +kernel
+
+/-- [T] `compute_edge_distance` in exact arithmetic is injective along a segment: two points of the
+segment at the same edge distance are the same point (so the key of an `EdgeIntersection` — segment
+index, distance — determines its coordinate: `validRec_fk`). -/
+theorem impl_edgeDistance_injective {p p' a b : Pt} (hp : Geo.Proofs.Kernel.SegMem p a b)
+    (hp' : Geo.Proofs.Kernel.SegMem p' a b)
+    (h : edgeDistance Arith.exact p a b = edgeDistance Arith.exact p' a b) : p = p' :=
+  edgeDistance_inj hp hp' h
+
+/-- the midpoint of a segment is the only point of the segment at its edge distance -/
+example : ∀ p, Geo.Proofs.Kernel.SegMem p ⟨0, 0⟩ ⟨4, 2⟩ →
+    edgeDistance Arith.exact p ⟨0, 0⟩ ⟨4, 2⟩ = edgeDistance Arith.exact ⟨2, 1⟩ ⟨0, 0⟩ ⟨4, 2⟩ → p = ⟨2, 1⟩ :=
+  fun _ hp h => impl_edgeDistance_injective hp ⟨1/2, by norm_num, by norm_num, by norm_num, by norm_num⟩ h
+
+/-- [T] **the model tests all segment pairs, the code asks an R-tree — same result (self-noding)**:
+starting from the edges `GeometryGraph::new` makes, visiting *any* list of candidate pairs that
+contains every pair of the all-pairs loop whose envelopes intersect (any order, any repetitions —
+`intersection_candidates_with_other_tree`) leaves on the edges exactly what the all-pairs loop of the
+model leaves: the list of an edge is the canonical sorted list of the set of intersections found.
+Exact arithmetic (with rounded crossing points two different points can share a key; the
+correspondence check SKIPs those cases as `near-tie:intersection-key-collision`). -/
+theorem selfNoding_order_independent (check : Bool) (es : List REdge) (hes : ∀ e ∈ es, e.eis = [])
+    (cand : List (Seg × Seg))
+    (hsub : ∀ pr ∈ cand, pr ∈ selfPairs check (allSegs es) (allSegs es))
+    (hsup : ∀ pr ∈ selfPairs check (allSegs es) (allSegs es), pairEnvelopesMeet pr = true → pr ∈ cand) :
+    selfFold es cand = selfIntersections Arith.exact check es :=
+  Geo.Proofs.RELM.selfNoding_order_independent check es hes cand hsub hsup
+
+/-- the pairs of a self-crossing line string, visited backwards -/
+example : selfFold ((RGraph.new 0 (.lineString [⟨0, 0⟩, ⟨2, 2⟩, ⟨2, 0⟩, ⟨0, 2⟩])).edges)
+      (selfPairs true (allSegs (RGraph.new 0 (.lineString [⟨0, 0⟩, ⟨2, 2⟩, ⟨2, 0⟩, ⟨0, 2⟩])).edges)
+        (allSegs (RGraph.new 0 (.lineString [⟨0, 0⟩, ⟨2, 2⟩, ⟨2, 0⟩, ⟨0, 2⟩])).edges)).reverse =
+    selfIntersections Arith.exact true (RGraph.new 0 (.lineString [⟨0, 0⟩, ⟨2, 2⟩, ⟨2, 0⟩, ⟨0, 2⟩])).edges :=
+  selfNoding_order_independent true _ (new_edges_eis 0 _) _
+    (fun pr h => List.mem_reverse.1 h) (fun pr h _ => List.mem_reverse.2 h)
+
+/-- [T] after self-noding every edge carries a strictly sorted list of valid records. -/
+theorem selfNoded_edges_wellFormed (idx : Nat) (g : Geom) :
+    ∀ e ∈ (freshGraph Arith.exact idx g).edges, SortedEI e.eis ∧ ∀ r ∈ e.eis, ValidRec e.coords r :=
+  freshGraph_wf idx g
+
+/-- [T] **… same result (mutual phase)**: for edge lists that carry sorted lists of valid records (the
+self-noded graphs: `selfNoded_edges_wellFormed`), visiting any list of candidate pairs (segment of A,
+segment of B) that contains every pair with intersecting envelopes leaves both edge lists (intersection
+lists and `is_isolated`), `has_proper_intersection` and `has_proper_interior_intersection` exactly as the
+all-pairs loop of the model does. Exact arithmetic. -/
+theorem mutualPhase_order_independent (bnodes : List Pt) (ea eb : List REdge)
+    (hsa : ∀ e ∈ ea, SortedEI e.eis) (hva : ∀ e ∈ ea, ∀ r ∈ e.eis, ValidRec e.coords r)
+    (hsb : ∀ e ∈ eb, SortedEI e.eis) (hvb : ∀ e ∈ eb, ∀ r ∈ e.eis, ValidRec e.coords r)
+    (cand : List (Seg × Seg))
+    (hsub : ∀ pr ∈ cand, pr ∈ mutualPairs (allSegs eb) (allSegs ea))
+    (hsup : ∀ pr ∈ mutualPairs (allSegs eb) (allSegs ea), pairEnvelopesMeet pr = true → pr ∈ cand) :
+    mutualFold bnodes ⟨ea, eb, false, false⟩ cand =
+      mutualRows Arith.exact bnodes (allSegs eb) (allSegs ea) ⟨ea, eb, false, false⟩ :=
+  mutual_order_independent bnodes ea eb hsa hva hsb hvb cand hsub hsup
+
+/-- a triangle against a crossing line string, pairs visited backwards -/
+example : mutualFold []
+      ⟨(freshGraph Arith.exact 0 (.triangle ⟨0, 0⟩ ⟨4, 0⟩ ⟨0, 4⟩)).edges,
+       (freshGraph Arith.exact 1 (.lineString [⟨1, 1⟩, ⟨5, 5⟩, ⟨4, 0⟩])).edges, false, false⟩
+      (mutualPairs (allSegs (freshGraph Arith.exact 1 (.lineString [⟨1, 1⟩, ⟨5, 5⟩, ⟨4, 0⟩])).edges)
+        (allSegs (freshGraph Arith.exact 0 (.triangle ⟨0, 0⟩ ⟨4, 0⟩ ⟨0, 4⟩)).edges)).reverse =
+    mutualRows Arith.exact [] (allSegs (freshGraph Arith.exact 1 (.lineString [⟨1, 1⟩, ⟨5, 5⟩, ⟨4, 0⟩])).edges)
+      (allSegs (freshGraph Arith.exact 0 (.triangle ⟨0, 0⟩ ⟨4, 0⟩ ⟨0, 4⟩)).edges)
+      ⟨(freshGraph Arith.exact 0 (.triangle ⟨0, 0⟩ ⟨4, 0⟩ ⟨0, 4⟩)).edges,
+       (freshGraph Arith.exact 1 (.lineString [⟨1, 1⟩, ⟨5, 5⟩, ⟨4, 0⟩])).edges, false, false⟩ :=
+  mutualPhase_order_independent [] _ _
+    (fun e he => (freshGraph_wf 0 _ e he).1) (fun e he => (freshGraph_wf 0 _ e he).2)
+    (fun e he => (freshGraph_wf 1 _ e he).1) (fun e he => (freshGraph_wf 1 _ e he).2) _
+    (fun pr h => List.mem_reverse.1 h) (fun pr h _ => List.mem_reverse.2 h)
+
+/-- [T] **the transpose law of the implementation** (exact arithmetic): `relate(b, a) = relate(a, b)ᵀ`,
+and the code panics for one order iff it does for the other — for *all* operands, valid or not,
+whose edge ends all have a direction (`EndsNonZero`: every edge end `EdgeEndBuilder` makes has non-zero
+length; it fails only when some `Line` has equal end points).
+Full statement (no hypothesis): false — `relateImpl_transpose_fails_witness` (a zero-length `Line`).
+Ingredients (GeoProofs/Lemmas/RELMDir, RELMStar, RELMSym1–6): `compare_direction` is a strict weak order
+on the edge ends of a node, so a star does not depend on the insertion order of its edge ends; the label of
+a bundle does not depend on the order of its edge ends; bundle labelling, side-label propagation, the
+collapse flag and the fill act on one label slot at a time, so they commute across the slots and are
+exchanged by `Label::swap_args`; `line_intersection` is symmetric (C11 `li_symm`) and the intersection
+lists are canonical, so the mutual phase is symmetric; a sorted node map is determined by its look-ups. -/
+theorem relateImpl_transpose_partial (a b : Geom) (hnz : EndsNonZero a b) :
+    relateImpl? b a = (relateImpl? a b).map IM.transpose := Geo.Proofs.RELM.relateImpl_transpose a b hnz
+
+/-- a self-crossing line string against a polygon with a hole sharing a vertex and an edge with it -/
+example : relateImpl? (.polygon ⟨[⟨0, 0⟩, ⟨4, 0⟩, ⟨4, 4⟩, ⟨0, 4⟩, ⟨0, 0⟩], [[⟨1, 1⟩, ⟨2, 1⟩, ⟨1, 2⟩, ⟨1, 1⟩]]⟩)
+      (.lineString [⟨0, 0⟩, ⟨2, 2⟩, ⟨2, 0⟩, ⟨0, 2⟩, ⟨1, 1⟩, ⟨1, 2⟩]) =
+    (relateImpl? (.lineString [⟨0, 0⟩, ⟨2, 2⟩, ⟨2, 0⟩, ⟨0, 2⟩, ⟨1, 1⟩, ⟨1, 2⟩])
+      (.polygon ⟨[⟨0, 0⟩, ⟨4, 0⟩, ⟨4, 4⟩, ⟨0, 4⟩, ⟨0, 0⟩], [[⟨1, 1⟩, ⟨2, 1⟩, ⟨1, 2⟩, ⟨1, 1⟩]]⟩)).map IM.transpose :=
+  relateImpl_transpose_partial _ _ (endsNonZero_of_B (by decide +kernel))
+
+/-- [T] `EdgeEndKey::compare_direction` is a strict weak order on the edge ends of one node: it is
+decided by the quadrant and the sign of the cross product of the direction vectors (`DirLt` /
+`DirEq`), which are transitive (`DirLt.trans`, `DirEq.trans`, `DirLt.of_eq_left/right`). -/
+theorem impl_compareDirection_spec (x y : EdgeEnd) (h0 : x.c0 = y.c0) (hx : NonZero (dirOf x)) (hy : NonZero (dirOf y)) :
+    (cmpDir Arith.exact x y = .lt ↔ DirLt (dirOf x) (dirOf y)) ∧
+    (cmpDir Arith.exact x y = .eq ↔ DirEq (dirOf x) (dirOf y)) ∧
+    (cmpDir Arith.exact x y = .gt ↔ DirLt (dirOf y) (dirOf x)) := cmpDir_spec x y h0 hx hy
+
+theorem impl_direction_order_transitive {u v w : Pt} (hu : NonZero u) (hv : NonZero v) (hw : NonZero w)
+    (h1 : DirLt u v) (h2 : DirLt v w) : DirLt u w := h1.trans hu hv hw h2
+
+example : cmpDir Arith.exact ⟨⟨1, 1⟩, ⟨3, 2⟩, Label.emptyLine⟩ ⟨⟨1, 1⟩, ⟨2, 3⟩, Label.emptyLine⟩ = .lt :=
+  (impl_compareDirection_spec ⟨⟨1, 1⟩, ⟨3, 2⟩, Label.emptyLine⟩ ⟨⟨1, 1⟩, ⟨2, 3⟩, Label.emptyLine⟩ rfl
+    (Or.inl (by norm_num [dirOf])) (Or.inl (by norm_num [dirOf]))).1.2
+    (Or.inr ⟨by decide +kernel, by norm_num [vcross, dirOf]⟩)
+
+/-- [T] **the star of a node does not depend on the order in which its edge ends are inserted**: for
+two orders of the same edge ends (all starting at `o`, with a direction) the bundles come out in the
+same order of directions, each with the same edge ends up to their order (`StarEq`). -/
+theorem impl_star_order_independent {o : Pt} {l l' : List EdgeEnd} (hp : l.Perm l') (hl : ∀ x ∈ l, GoodEnd o x) :
+    StarEq (insAll [] l) (insAll [] l') :=
+  insAll_perm hp hl (fun _ h => by cases h) (fun _ h => by cases h) (StarEq.refl _)
+
+/-- [T] the label `EdgeEndBundle::into_labeled` computes does not depend on the order of the edge ends
+of the bundle, and for the edge ends with swapped labels it is the swapped label. -/
+theorem impl_bundleLabel_perm {ends ends' : List EdgeEnd} (h : ends.Perm ends') : bundleLabel ends = bundleLabel ends' :=
+  bundleLabel_perm h
+
+theorem impl_bundleLabel_swap (ends : List EdgeEnd) : bundleLabel (ends.map swapE) = (bundleLabel ends).swap :=
+  bundleLabel_swap ends
+
+/-- [T] `compute_labeling` for the operands in the other order gives the swapped labels (the two
+`propagate_side_labels` calls commute, so do the two fills). -/
+theorem impl_starLabels_swap (a b : Geom) (c : Pt) (star : List Bundle) :
+    starLabels b a c (star.map swapB) = (starLabels a b c star).map (·.map Label.swap) :=
+  starLabels_swap a b c star
+
+/-- [T] **anything × Point, columns Interior and Boundary** — the mirror image of `relateImpl_point_rows`,
+obtained through the transpose law: for every geometry `A` (edge ends of non-zero length) whose envelope
+meets the point, the Boundary column of `relate(A, Point p)` is `F` and the Interior column has a single
+`0`, in the row of the position `q` recorded for `p` w.r.t. `A`. -/
+theorem relateImpl_point_cols_partial (p : Pt) (a : Geom) (hnz : EndsNonZero (.point p) a)
+    (henv : envelopesMeet (.point p) a = true) {m : IM} (h : relateImpl? a (.point p) = some m) :
+    ∃ q : Pos, ∀ X Y, Y ≠ .outside → m.get X Y = if Y = .inside ∧ q = X then .zero else .empty := by
+  rw [relateImpl_transpose_partial (.point p) a hnz] at h
+  cases h' : relateImpl? (.point p) a with
+  | none => rw [h'] at h; cases h
+  | some m' =>
+    rw [h'] at h
+    simp only [Option.map_some, Option.some.injEq] at h
+    subst h
+    have hg : relateGraph Arith.exact (.point p) a = some m' := by
+      unfold relateImpl? relateImplWith at h'
+      rw [henv, if_pos rfl] at h'
+      exact h'
+    obtain ⟨_, _, q, _, _, _, hrows⟩ := relateImpl_point_rows Arith.exact p a hg
+    refine ⟨q, fun X Y hY => ?_⟩
+    rw [transpose_get, hrows Y X hY]
+
+/-- the point (2, 0) on the boundary of a triangle -/
+example : ∃ q : Pos, ∀ X Y, Y ≠ .outside →
+    (⟨.empty, .empty, .two, .zero, .empty, .one, .empty, .empty, .two⟩ : IM).get X Y =
+      if Y = .inside ∧ q = X then .zero else .empty :=
+  relateImpl_point_cols_partial ⟨2, 0⟩ (.triangle ⟨0, 0⟩ ⟨4, 0⟩ ⟨0, 4⟩) (endsNonZero_of_B (by decide +kernel))
+    (by decide +kernel) (by decide +kernel)
+
+/-- [T] **The transpose law of the implementation, for all geometries without a zero-length `Line`**
+(exact arithmetic): `relate(b, a) = relate(a, b)ᵀ`, and the code panics for one order iff it does for the
+other — valid and invalid operands alike (self-crossing line work, overlapping collection members,
+degenerate rings, …). The edges `GeometryGraph::new` builds have no two equal consecutive coordinates
+(`buildGraph_distinct`), self-noding and the mutual phase leave sorted lists of valid records on them
+(`freshGraph_edgeWF`, `mutualGraphs_edgeWF`), so every edge end has non-zero length
+(`endsForEdges_nonzero`) and `relateImpl_transpose_partial` applies. -/
+theorem relateImpl_transpose (a b : Geom) (ha : noZeroLine a = true) (hb : noZeroLine b = true) :
+    relateImpl? b a = (relateImpl? a b).map IM.transpose := relateImpl_transpose_noZeroLine a b ha hb
+
+/-- two overlapping members of a collection against a bow-tie ring -/
+example : relateImpl?
+      (.polygon ⟨[⟨0, 0⟩, ⟨2, 2⟩, ⟨2, 0⟩, ⟨0, 2⟩, ⟨0, 0⟩], []⟩)
+      (.collection [.rect ⟨0, 0⟩ ⟨2, 2⟩, .polygon ⟨[⟨1, 1⟩, ⟨3, 1⟩, ⟨3, 3⟩, ⟨1, 3⟩, ⟨1, 1⟩], []⟩, .line ⟨0, 1⟩ ⟨3, 1⟩]) =
+    (relateImpl?
+      (.collection [.rect ⟨0, 0⟩ ⟨2, 2⟩, .polygon ⟨[⟨1, 1⟩, ⟨3, 1⟩, ⟨3, 3⟩, ⟨1, 3⟩, ⟨1, 1⟩], []⟩, .line ⟨0, 1⟩ ⟨3, 1⟩])
+      (.polygon ⟨[⟨0, 0⟩, ⟨2, 2⟩, ⟨2, 0⟩, ⟨0, 2⟩, ⟨0, 0⟩], []⟩)).map IM.transpose :=
+  relateImpl_transpose _ _ (by decide +kernel) (by decide +kernel)
+
+/-- [T] … hence for the total function on such operands when the code does not panic. -/
+theorem relateImpl_transpose_total (a b : Geom) (ha : noZeroLine a = true) (hb : noZeroLine b = true)
+    (hp : (relateImpl? a b).isSome) : relateImpl b a = (relateImpl a b).transpose := by
+  unfold relateImpl
+  rw [relateImpl_transpose a b ha hb]
+  cases h : relateImpl? a b with
+  | none => rw [h] at hp; cases hp
+  | some m => rfl
+
+/-- [T] **`relate` never panics** (model of the implementation, exact arithmetic): for all operands —
+valid or not — without a zero-length `Line` and with closed polygon rings (the invariant of
+`geo_types::Polygon`; the model's type admits open rings) the code reaches its end: none of
+"node should have been labeled by now", the slice indexing of `EdgeEndBuilder`, "can't create empty
+edge", "found single null side", "found partial label" can happen. Invariants: every node of a graph is
+labelled for its own operand and every edge starts and ends at a node (`ginv_buildGraph`,
+`freshGraph_ginv`); edges carry sorted lists of valid records (`mutualGraphs_edgeWF`), so the stubs of
+`EdgeEndBuilder` exist and start at nodes of the node map (`endsForEdges_isSome`); every node of the node
+map is labelled for both operands after `label_isolated_nodes` (`iso_count`); edge ends carry side
+positions on both sides or on none, which is what `propagate_side_labels` needs (`starLabels_isSome`). -/
+theorem relateImpl_never_panics (a b : Geom) (ha : noZeroLine a = true) (hb : noZeroLine b = true)
+    (ca : ringsClosed a = true) (cb : ringsClosed b = true) : (relateImpl? a b).isSome :=
+  relateImpl_isSome a b ha hb ca cb
+
+/-- a bow-tie ring with a spike against a collection with overlapping members -/
+example : (relateImpl? (.polygon ⟨[⟨0, 0⟩, ⟨2, 2⟩, ⟨2, 0⟩, ⟨0, 2⟩, ⟨3, 3⟩, ⟨0, 2⟩, ⟨0, 0⟩], []⟩)
+    (.collection [.rect ⟨0, 0⟩ ⟨2, 2⟩, .lineString [⟨1, 1⟩, ⟨1, 1⟩, ⟨3, 0⟩], .multiPoint [⟨2, 2⟩]])).isSome :=
+  relateImpl_never_panics _ _ (by decide +kernel) (by decide +kernel) (by decide +kernel) (by decide +kernel)
+
+/-- [T] **transpose law for the total function**: on such operands `relateImpl b a = (relateImpl a b)ᵀ`. -/
+theorem relateImpl_transpose_closed (a b : Geom) (ha : noZeroLine a = true) (hb : noZeroLine b = true)
+    (ca : ringsClosed a = true) (cb : ringsClosed b = true) : relateImpl b a = (relateImpl a b).transpose :=
+  relateImpl_transpose_total a b ha hb (relateImpl_never_panics a b ha hb ca cb)
+
+example : relateImpl (.lineString [⟨0, 0⟩, ⟨2, 2⟩, ⟨2, 0⟩, ⟨0, 2⟩]) (.triangle ⟨0, 0⟩ ⟨4, 0⟩ ⟨0, 4⟩) =
+    (relateImpl (.triangle ⟨0, 0⟩ ⟨4, 0⟩ ⟨0, 4⟩) (.lineString [⟨0, 0⟩, ⟨2, 2⟩, ⟨2, 0⟩, ⟨0, 2⟩])).transpose :=
+  relateImpl_transpose_closed _ _ rfl rfl rfl rfl
+
+end Impl
 
 end Geo.Proofs.C01
